@@ -11,6 +11,12 @@ pub enum HexSpec {
     Vector(Vec<u8>),
     /// `Hex::Bytes(array, len)` directly, padding may be non-zero.
     Bytes([u8; 8], usize),
+    /// Produced by another API call: `from_vec(prefix ++ bytes).tail(prefix)`.
+    Tail(usize, Vec<u8>),
+    /// `Hex::Vector(bytes[..split]).concat(&from_slice(bytes[split..]))`.
+    Cat(usize, Vec<u8>),
+    /// `Hex::from_str(<printed form of the bytes>)`.
+    Parsed(Vec<u8>),
 }
 
 impl HexSpec {
@@ -19,11 +25,22 @@ impl HexSpec {
             HexSpec::Canon(v) => Hex::from_vec(v.clone()),
             HexSpec::Vector(v) => Hex::Vector(v.clone()),
             HexSpec::Bytes(a, l) => Hex::Bytes(*a, *l),
+            HexSpec::Tail(k, v) => {
+                let mut full: Vec<u8> = (0..*k).map(|i| 0xC0 + i as u8).collect();
+                full.extend_from_slice(v);
+                Hex::from_vec(full).tail(*k)
+            }
+            HexSpec::Cat(k, v) => Hex::Vector(v[..*k].to_vec()).concat(&Hex::from_slice(&v[*k..])),
+            HexSpec::Parsed(v) => {
+                use std::str::FromStr;
+                let txt = if v.is_empty() { "--".to_string() } else { v.iter().map(|b| format!("{b:02X}")).collect::<Vec<_>>().join("-") };
+                Hex::from_str(&txt).expect("harness: printed hex must parse")
+            }
         }
     }
     pub fn bytes(&self) -> Vec<u8> {
         match self {
-            HexSpec::Canon(v) | HexSpec::Vector(v) => v.clone(),
+            HexSpec::Canon(v) | HexSpec::Vector(v) | HexSpec::Tail(_, v) | HexSpec::Cat(_, v) | HexSpec::Parsed(v) => v.clone(),
             HexSpec::Bytes(a, l) => a[..*l].to_vec(),
         }
     }
@@ -32,6 +49,9 @@ impl HexSpec {
             HexSpec::Canon(v) => format!("C:{}", hex(v)),
             HexSpec::Vector(v) => format!("V:{}", hex(v)),
             HexSpec::Bytes(a, l) => format!("B:{}:{}", hex(a), l),
+            HexSpec::Tail(k, v) => format!("T:{k}:{}", hex(v)),
+            HexSpec::Cat(k, v) => format!("K:{k}:{}", hex(v)),
+            HexSpec::Parsed(v) => format!("P:{}", hex(v)),
         }
     }
     pub fn parse(s: &str) -> Option<Self> {
@@ -39,6 +59,15 @@ impl HexSpec {
         match k {
             "C" => Some(HexSpec::Canon(unhex(rest)?)),
             "V" => Some(HexSpec::Vector(unhex(rest)?)),
+            "T" => {
+                let (k, h) = rest.split_once(':')?;
+                Some(HexSpec::Tail(k.parse().ok()?, unhex(h)?))
+            }
+            "K" => {
+                let (k, h) = rest.split_once(':')?;
+                Some(HexSpec::Cat(k.parse().ok()?, unhex(h)?))
+            }
+            "P" => Some(HexSpec::Parsed(unhex(rest)?)),
             "B" => {
                 let (h, l) = rest.split_once(':')?;
                 let v = unhex(h)?;
